@@ -1,0 +1,17 @@
+//go:build verif
+
+package quickfix
+
+import "sync/atomic"
+
+var verifPointFn atomic.Value // func(string)
+
+// VerifSetPoint installs a callback run at named points between the critical
+// sections of the send path (used to widen interleavings and count visits).
+func VerifSetPoint(f func(name string)) { verifPointFn.Store(f) }
+
+func verifPoint(name string) {
+	if f, ok := verifPointFn.Load().(func(string)); ok && f != nil {
+		f(name)
+	}
+}
